@@ -76,15 +76,15 @@ package ast
 // digit strings; a ternary prints its '?' and ':' between spaces (so that '?'
 // followed by '[' or '.' is not read as a null-safe access).
 //@ func (*FloatNode).String
-//@   props C17
+//@   props C17 C14
 //@   inline
 //@   nosafety
 //@   stringsexact
 //@   pure
 //@   ghost digits string = ""
 //@   at call strconv.FormatFloat#0 after set digits = res
-//@   ensures[float-text-has-fraction-or-exponent;C17] exists(i, 0, len(result), result[i] == '.' || result[i] == 'e' || result[i] == 'E' || result[i] == 'N' || result[i] == 'I')
-//@   ensures[fraction-added-to-plain-digits-only;C17] len(result) == len(digits) || forall(i, 0, len(digits), digits[i] != '.' && digits[i] != 'e' && digits[i] != 'E')
+//@   ensures[float-text-has-fraction-or-exponent;C17,C14] exists(i, 0, len(result), result[i] == '.' || result[i] == 'e' || result[i] == 'E' || result[i] == 'N' || result[i] == 'I')
+//@   ensures[fraction-added-to-plain-digits-only;C17,C14] len(result) == len(digits) || forall(i, 0, len(digits), digits[i] != '.' && digits[i] != 'e' && digits[i] != 'E')
 //@ func (*TernNode).String
 //@   props C17
 //@   nosafety
